@@ -380,7 +380,11 @@ func genPool(maxTasks int) func(rt *rapid.T) PoolSc {
 		} else {
 			nd := rapid.IntRange(0, 8).Draw(rt, "ndur")
 			for i := 0; i < nd; i++ {
-				p.DurMs = append(p.DurMs, rapid.IntRange(0, 30).Draw(rt, "d"))
+				d := rapid.IntRange(0, 30).Draw(rt, "d")
+				if rapid.IntRange(0, 9).Draw(rt, "long") == 0 {
+					d = rapid.IntRange(200, 900).Draw(rt, "dlong") // a backlog that outlasts any short patience of Submit
+				}
+				p.DurMs = append(p.DurMs, d)
 			}
 		}
 		return p
